@@ -113,7 +113,7 @@ class Batch(Part):
         n = len(case["pre"])
         dim = rng.randint(1, 3)
         m = rng.randint(1, 3)
-        criteria = [rng.choice(["minimize", "maximize"]) for _ in range(m)]
+        criteria = [rng.choice(["minimize", "maximize", "maximize", None]) for _ in range(m)]
         workers = case["workers"]
         # a third of the batches also meet a few transient failures (<= 2 in a row): the stored costs, signs and the
         # feasibility marker must then describe the finally stored (re-sampled) vector
